@@ -132,30 +132,42 @@ def suite_raw(ctx):
     svcs = cl.services_by_name()
     lines, impl = [], []
     sfs = list(range(256)) if ctx.thorough else sorted(set([0, 1, 0x7E, 0x7F, 0x80, 0x81, 0xC0, 0xFE, 0xFF] + [rng.randrange(256) for _ in range(40)]))
+    nvar = 0
     for sf in sfs:
         for svc in ('TesterPresent', 'ECUReset', 'RoutineControl'):
             for wnrc in (False, True):
                 data = b'\x12\x34' if svc == 'RoutineControl' else None
                 req = Request(svcs[svc], subfunction=sf, data=data)
                 before = dict(vars(req))
-                cfg = cl.Cfg(rt=200, p2=50, p2s=80, spr=True, wnrc=wnrc)
-                client, conn = cl.make_client(cl.Cfg(rt=200, p2=50, p2s=80))
                 sid = svcs[svc]._sid
-                rec = {'site': 'send_request', 'service': svc, 'subfunction': sf, 'wait_nrc': wnrc}
+                # the limits in force, the edge values included (an overall or per-call limit of exactly 0: the window is empty, the outcome is the same),
+                # and what is in the air when the client looks: nothing, a positive reply, a negative one
+                nvar += 1
+                rt, percall = [(200, None), (200, None), (0, None), (200, 0), (None, 0), (5, 5)][nvar % 6]
+                air = ['silence', 'positive', 'negative'][(nvar // 6) % 3] if wnrc else 'silence'
+                arr_in = {'silence': [], 'positive': [(0, bytes([sid + 0x40, sf & 0x7F, 0x12, 0x34]))], 'negative': [(0, bytes([0x7F, sid, 0x22]))]}[air]
+                cfg = cl.Cfg(rt=rt, p2=50, p2s=80, spr=True, wnrc=wnrc)
+                client, conn = cl.make_client(cl.Cfg(rt=rt, p2=50, p2s=80))
+                rec = {'site': 'send_request', 'service': svc, 'subfunction': sf, 'wait_nrc': wnrc, 'request_timeout': rt, 'per_call_timeout': percall, 'in_the_air': air}
                 # ---- inside the block
-                conn.script = []
+                conn.script = list(arr_in)
                 with client.suppress_positive_response(wait_nrc=wnrc):
-                    obs = cl.observe(conn, lambda: client.send_request(req))
+                    obs = cl.observe(conn, lambda: client.send_request(req, timeout=-1 if percall is None else percall * cl.TICK))
                 sends = [o[1] for o in conn.log if o[0] == 'send']
                 want = bytes([sid, sf | 0x80]) + (data or b'')
-                line = 'send %s svc=%s sf=%d rspr=0 data=%s timeout=- arr=-' % (cfg.line(), svc, sf, core.ohx(data))
+                line = 'send %s svc=%s sf=%d rspr=0 data=%s timeout=%s arr=%s' % (cfg.line(), svc, sf, core.ohx(data), onat(percall), cl.arrivals_str(arr_in))
                 lines.append(line)
                 impl.append(obs)
                 s.distinct.add(line)
+                s.count('limits rt=%s per-call=%s' % (rt, percall))
                 if not sends or sends[0] != want:
                     s.fail(dict(rec, input=line, observed=(sends[0].hex() if sends else 'nothing sent'), required='%s (bit 7 of the sub-function set, the rest unchanged)' % want.hex()))
-                if ' out=none' not in obs:
+                if air == 'negative':
+                    if 'negative:34' not in obs:
+                        s.fail(dict(rec, input=line, observed=obs, required='the negative response 0x22 surfaces (wait_nrc)'))
+                elif ' out=none' not in obs:
                     s.fail(dict(rec, input=line, observed=obs, required='None is returned'))
+                client, conn = cl.make_client(cl.Cfg(rt=200, p2=50, p2s=80)) if (rt, percall) != (200, None) else (client, conn)
                 if not wnrc and any(o[0] == 'wait' for o in conn.log):
                     s.fail(dict(rec, input=line, observed='wait_frame called', required='no read when not waiting for an NRC'))
                 if dict(vars(req)) != before:
